@@ -284,6 +284,9 @@ func c01Corpus(s *sessSys) []sessReq {
 		{sReq: sReq{Kind: kPFD, Conn: 0, PFDs: []sPFD{{App: "app1", Flows: []string{"permit out ip from 10.1.0.0/16 to assigned", "permit in udp from any 53 to assigned"}}, {App: "app2", Flows: []string{"permit out tcp from 10.2.0.0/16 8080 to assigned"}}}}, Label: "pfd"},
 		{sReq: sReq{Kind: kEst, Conn: 0, CPSEID: 0x77, CreatePDR: p, CreateFAR: f, CreateQER: q}, Label: "est"},
 		{sReq: mod, Sess: sessIdx, Label: "mod"},
+		// the smallest modification both plug-ins accept: one Update FAR that moves the tunnel, with the SNDEM flag set
+		// whether or not end markers are enabled (a peer may set it regardless of what the agent advertised)
+		{sReq: sReq{Kind: kMod, Conn: 0, UpdateFAR: []sFAR{{ID: 2, Action: ActionForward, HasFwd: true, HasDst: true, Dst: ie.DstInterfaceAccess, OHCIP: "11.1.1.141", OHCTEID: 0x7778, SMFlags: &em}}}, Sess: sessIdx, Label: "mod-ufar-sndem"},
 		{sReq: sReq{Kind: kDel, Conn: 0}, Sess: sessIdx, Label: "del"},
 		{sReq: sReq{Kind: kRel, Conn: 0}, Label: "release"},
 		{sReq: sReq{Kind: kSRR, Conn: 0, Cause: ie.CauseRequestAccepted}, Sess: sessIdx, Label: "srr-accepted"},
